@@ -542,7 +542,7 @@ func checkBrackets(c *core.Ctx) {
 		info := p.TypesInfo
 		var bodyRunner *types.Func
 		core.AllFuncDecls(p, func(fd *ast.FuncDecl) {
-			if fd.Name.Name == "callNativeFunc" {
+			if fd.Name.Name == interpExecLoopName(p) {
 				bodyRunner, _ = info.Defs[fd.Name].(*types.Func)
 			}
 		})
